@@ -255,10 +255,12 @@ class Check:
             self.say("%s bounded stand-in: %s cases, %d failures" % (self.prop, self.bounded.get("cases"), len(self.bounded.get("failures", []))))
         for k, fn in self.known_seen:
             self.say("KNOWN-FINDING: property=%s %s (replay=%s)" % (self.prop, k.get("summary"), fn))
-        if self.broken:
+        if self.broken and not self.violations:
             for b in self.broken:
                 self.say("CHECKER-BROKEN: %s" % b)
             return 3
+        for b in self.broken:
+            self.say("note: part of the checker did not run: %s" % b[:300])
         if self.violations:
             for name, fn, tail in self.violations:
                 self.say("failed obligation: %s" % name)
